@@ -1,13 +1,24 @@
+\* quick exported instance (edges replayed on the real application by harness/ledger/candidates.go); invariants checked too
 SPECIFICATION Spec
 CONSTANTS
-  Cand = {"x", "y"}
+  Cand = {"x", "y", "w"}
   CandOrder <- OrderXY
   Other = {"z"}
   MaxScore = 500
-  InitScore <- InitXY
-  MaxH = 3
-  MaxEv = 2
+  InitScore <- InitXYW
+  MaxH = 4
+  EvBound <- EvExport
+  VotePeriod = 3
+  Pledge <- PledgeXYW
+  InitDeposit = 1
+  Seeds = {"s1", "s2", "s3"}
+  PermOf <- Perm3
+  RepOrder <- Rep4
+  SeedFromSeen = FALSE
+  Nume = 2
+  Deno = 3
+  UpperLimit = 12
 VIEW View
-INVARIANTS TypeOK ScoreInRange ListMirrorsContract ProdBounded
-ACTION_CONSTRAINT Edge
+INVARIANTS TypeOK ReplicasAgree NextValidatorsAgree ScoreInRange ListMirrorsContract ProdBounded ElectedFromContract
 CHECK_DEADLOCK FALSE
+ACTION_CONSTRAINT Edge
